@@ -163,7 +163,7 @@ def gen_vector(rnd, rt, workdir, mk_wenc):
             if len(comp) > 255 or len(os.path.join(workdir, v.outfile)) >= 4096:
                 fails.append("default output name too long")
     # ---- -k
-    kcls = pick(["valid"] * 7 + ["absent"] * 3 + ["wrong", "len23", "len25", "len20", "len28", "highbit", "badchar", "pad0", "pad1", "pad3", "empty"])
+    kcls = pick(["valid"] * 7 + ["absent"] * 3 + ["wrong", "len23", "len25", "len20", "len28", "len280", "len25pad", "len26pad", "len27pad", "highbit", "badchar", "pad0", "pad1", "pad3", "empty"])
     ks = b64key(key)
     if kcls == "absent":
         if op in ("d", "v"):
@@ -185,6 +185,10 @@ def gen_vector(rnd, rt, workdir, mk_wenc):
             ks = ks[:18] + "=="
         elif kcls == "len28":
             ks = ks[:22] + "AAAA=="
+        elif kcls == "len280":
+            ks = ks + "A" * 256
+        elif kcls in ("len25pad", "len26pad", "len27pad"):
+            ks = ks[:22] + "A" * (int(kcls[3:5]) - 24) + "=="
         elif kcls == "highbit":
             p = rnd.randrange(22)
             # a raw byte >= 0x80 whose low 7 bits are a base64 symbol; surrogateescape makes it reach argv as one byte
@@ -278,7 +282,7 @@ def prepare(v, wd):
     return True
 
 
-def run_one(binary, v, wd, env, timeout=90.0):
+def run_one(binary, v, wd, env, timeout=45.0):
     t0 = time.time()
     p = subprocess.Popen([binary] + v.argv(), cwd=wd, stdin=subprocess.DEVNULL, stdout=subprocess.PIPE, stderr=subprocess.PIPE, env=env)
     try:
@@ -286,9 +290,12 @@ def run_one(binary, v, wd, env, timeout=90.0):
         status = "exit"
     except subprocess.TimeoutExpired:
         dl = runner.logical_deadlock(p.pid)
+        ticks, _ = runner._cpu_ticks(p.pid)
+        cpu_s = (ticks or 0) / float(os.sysconf("SC_CLK_TCK"))
         p.kill()
         out, err = p.communicate()
-        status = "deadlock" if dl else "timeout"
+        # CPU time, not wall-clock: these invocations need well under a second of CPU
+        status = "deadlock" if dl else ("cpu-loop" if cpu_s >= 0.6 * timeout else "timeout")
     return dict(status=status, rc=p.returncode, out=out.decode("latin1"), err=err.decode("latin1"), wall=time.time() - t0)
 
 
@@ -338,6 +345,9 @@ def judge(chk, v, res, rt, wd, stats):
     stats["rc_%s" % res["rc"]] = stats.get("rc_%s" % res["rc"], 0) + 1
     if res["status"] == "timeout":
         chk.inconclusive.append(dict(argv=short, how="wall-clock timeout, process still consuming CPU"))
+        return
+    if res["status"] == "cpu-loop":
+        chk.add_violation("C17|endless-loop|%s" % (v.why.split(";")[0] if v.why else v.cell.split("|")[0]), "the program spins without terminating (CPU time consumed: endless loop)", **det)
         return
     if res["status"] == "deadlock":
         chk.add_violation("C17|hang|%s" % v.cell.split("|")[0], "the program hung (all threads asleep, no CPU progress)", **det)
